@@ -35,7 +35,7 @@ class Logger(CallbackBase):
     """
 
     def __init__(self, period, logger_fn=print, msg_gen=None, **msg_gen_kwargs):
-        self.period = period
+        self.period = int(period)
         self.logger_fn = logger_fn
         self.msg_gen = msg_gen if callable(msg_gen) else self._default_msg_gen
         self.msg_gen_kwargs = msg_gen_kwargs
